@@ -17,6 +17,8 @@ pub struct IdPath {
     id: String,
 }
 
+pub const BLOCK: usize = 7;
+
 pub fn greeting(nonce: u64, len: usize) -> Vec<u8> {
     (0..len).map(|i| (nonce as usize * 31 + i * 7) as u8).collect()
 }
@@ -40,7 +42,23 @@ async fn ws_echo(
         }
     }
     let mut buf = vec![0u8; 4096];
-    while res.is_ok() {
+    // flags bit 1: read fixed-size blocks with read_exact (the client sends a
+    // whole number of blocks), the way a framing layer would
+    while res.is_ok() && h.flags & 2 == 2 {
+        let mut block = [0u8; BLOCK];
+        match io.read_exact(&mut block).await {
+            Ok(_) => {
+                total += BLOCK as u64;
+                w.log(Ev::WsBytes, NOCONN, h.nonce, BLOCK as u64, total);
+                if let Err(e) = io.write_all(&block).await {
+                    res = Err(e.into());
+                }
+            }
+            Err(e) if e.kind() == std::io::ErrorKind::UnexpectedEof => break,
+            Err(e) => res = Err(e.into()),
+        }
+    }
+    while res.is_ok() && h.flags & 2 == 0 {
         match io.read(&mut buf).await {
             Ok(0) => break,
             Ok(n) => {
